@@ -502,7 +502,11 @@ def run_case(case, ctx):
             continue
         for which, Xq in ((0, Xa), (1, Xb)):
             try:
-                out = getattr(pipe, m)(Xq)
+                # the batch given by position or by keyword (pipe.predict(X=data)): both are recorded
+                by_keyword = (case["sub"] + which + len(m)) % 3 == 0
+                out = getattr(pipe, m)(X=Xq) if by_keyword else getattr(pipe, m)(Xq)
+                if by_keyword:
+                    ctx.hit("debug.keyword_call")
             except Exception as e:
                 ctx.violation(K + "debug/raised-after-alter/%s" % type(e).__name__, "%s after alteration: %s" % (
                     m, str(e)[:150]), cfg=cfg)
